@@ -728,10 +728,17 @@ pub fn driver_main(prop: &PropDef, tier: Tier) -> i32 {
             "minimised": {"from_choices": f.tape.as_ref().map(|t| t.len()), "to_choices": min_tape.as_ref().map(|t| t.len()), "replays_used": used},
             "log_hash": a.log_hash,
         });
+        // pretty document, compact tape (one [label, n, value] triple per entry, all on one line)
+        let mut text = serde_json::to_string_pretty(&doc).unwrap();
         if !a.tape.is_null() {
-            doc["tape"] = a.tape.clone();
+            let tape = serde_json::to_string(&a.tape).unwrap();
+            if let Some(pos) = text.rfind('}') {
+                text.truncate(pos);
+                let trimmed = text.trim_end().to_string();
+                text = format!("{trimmed},\n  \"tape\": {tape}\n}}");
+            }
         }
-        std::fs::write(&path, serde_json::to_string_pretty(&doc).unwrap()).expect("write replay file");
+        std::fs::write(&path, text).expect("write replay file");
         violation_lines.push(format!("VIOLATION property={} replay={}", prop.id, path.display()));
         println!("  {} :: {}", sig, a.detail);
     }
